@@ -1,0 +1,234 @@
+// Copyright (c) 2026 10X Genomics, Inc. All rights reserved.
+
+//go:build verif
+
+package core
+
+// Read-only views of the volatile-data-removal bookkeeping and exports of the
+// unexported pure functions of storage.go for the external verification
+// harness.  Only compiled with `-tags verif`.
+
+import (
+	"encoding/json"
+	"sort"
+	"time"
+
+	"github.com/martian-lang/martian/martian/syntax"
+)
+
+// VerifVdrFile is one entry of a fork's file -> arguments cache.
+type VerifVdrFile struct {
+	Args   []string // sorted
+	HasArg bool     // args != nil
+	Size   int64
+	Count  int
+}
+
+// VerifVdrFork is a snapshot of one fork's VDR bookkeeping.
+type VerifVdrFork struct {
+	Node           string // fqname of the node
+	Fqname         string // fqname of the fork
+	Kind           string // stage | pipeline
+	Index          int
+	Path           string
+	State          MetadataState
+	Volatile       bool
+	StrictVolatile bool
+	Split          bool
+	// argument -> sorted fqnames of the nodes holding it; "" is the nil
+	// holder (top-level pipeline / retain).
+	FileArgs map[string][]string
+	// post node fqname -> sorted arguments
+	FilePostNodes map[string][]string
+	Cached        bool
+	FileParamMap  map[string]VerifVdrFile
+	HasKill       bool
+	HasPartial    bool
+	MetaPath      string
+	SplitPath     string
+	JoinPath      string
+	ChunkPaths    []string
+	SplitFiles    string
+	JoinFiles     string
+	ChunkFiles    []string
+}
+
+// The top-level holder is a typed nil (*Node)(nil), a retain an untyped nil.
+func verifNilNodable(n Nodable) bool {
+	if n == nil {
+		return true
+	}
+	if p, ok := n.(*Node); ok && p == nil {
+		return true
+	}
+	return false
+}
+
+func (self *Fork) verifVdrView() VerifVdrFork {
+	self.storageLock.Lock()
+	defer self.storageLock.Unlock()
+	v := VerifVdrFork{
+		Node:           self.node.GetFQName(),
+		Fqname:         self.fqname,
+		Kind:           "pipeline",
+		Index:          self.index,
+		Path:           self.path,
+		State:          self.getState(),
+		Volatile:       self.isVolatile(),
+		StrictVolatile: self.isStrictVolatile(),
+		MetaPath:       self.metadata.path,
+		SplitPath:      self.split_metadata.path,
+		JoinPath:       self.join_metadata.path,
+		SplitFiles:     self.split_metadata.curFilesPath,
+		JoinFiles:      self.join_metadata.curFilesPath,
+	}
+	if self.node.call.Kind() == syntax.KindStage {
+		v.Kind = "stage"
+		v.Split = self.Split()
+	}
+	if self.fileArgs != nil {
+		v.FileArgs = make(map[string][]string, len(self.fileArgs))
+		for arg, nodes := range self.fileArgs {
+			hs := make([]string, 0, len(nodes))
+			for n := range nodes {
+				if verifNilNodable(n) {
+					hs = append(hs, "")
+				} else {
+					hs = append(hs, n.GetFQName())
+				}
+			}
+			sort.Strings(hs)
+			v.FileArgs[arg] = hs
+		}
+	}
+	if self.filePostNodes != nil {
+		v.FilePostNodes = make(map[string][]string, len(self.filePostNodes))
+		for n, args := range self.filePostNodes {
+			as := make([]string, 0, len(args))
+			for a := range args {
+				as = append(as, a)
+			}
+			sort.Strings(as)
+			name := ""
+			if !verifNilNodable(n) {
+				name = n.GetFQName()
+			}
+			v.FilePostNodes[name] = as
+		}
+	}
+	if self.fileParamMap != nil {
+		v.Cached = true
+		v.FileParamMap = make(map[string]VerifVdrFile, len(self.fileParamMap))
+		for f, e := range self.fileParamMap {
+			fe := VerifVdrFile{HasArg: e.args != nil, Size: e.size, Count: e.count}
+			for a := range e.args {
+				fe.Args = append(fe.Args, a)
+			}
+			sort.Strings(fe.Args)
+			v.FileParamMap[f] = fe
+		}
+	}
+	v.HasKill = self.metadata.exists(VdrKill)
+	v.HasPartial = self.metadata.exists(PartialVdr)
+	for _, c := range self.chunks {
+		v.ChunkPaths = append(v.ChunkPaths, c.metadata.path)
+		v.ChunkFiles = append(v.ChunkFiles, c.metadata.curFilesPath)
+	}
+	return v
+}
+
+// VerifVdrView returns the VDR bookkeeping of every fork of every node.
+func (self *Pipestance) VerifVdrView() []VerifVdrFork {
+	var out []VerifVdrFork
+	for _, n := range self.allNodes() {
+		for _, f := range n.forks {
+			out = append(out, f.verifVdrView())
+		}
+	}
+	return out
+}
+
+// VerifNodeStates returns the live state of every node, by fqname.
+func (self *Pipestance) VerifNodeStates() map[string]MetadataState {
+	nodes := self.allNodes()
+	out := make(map[string]MetadataState, len(nodes))
+	for _, n := range nodes {
+		out[n.GetFQName()] = n.getState()
+	}
+	return out
+}
+
+// VerifPathIsInside exposes pathIsInside.
+func VerifPathIsInside(test, parent string) bool { return pathIsInside(test, parent) }
+
+// VerifAnyOverlap exposes anyOverlap.
+func VerifAnyOverlap(names []string, files []string) (string, string) {
+	var m map[string]struct{}
+	if files != nil {
+		m = make(map[string]struct{}, len(files))
+		for _, f := range files {
+			m[f] = struct{}{}
+		}
+	}
+	return anyOverlap(names, m)
+}
+
+// VerifGetMaybeFileNames exposes getMaybeFileNames on raw json.
+func VerifGetMaybeFileNames(b []byte) []string {
+	return getMaybeFileNames(json.RawMessage(b))
+}
+
+// VerifLogicalFileNames exposes getLogicalFileNames.
+func VerifLogicalFileNames(name string) []string { return getLogicalFileNames(name) }
+
+// VerifReport is a kill report with the event timestamps given in seconds.
+type VerifReport struct {
+	Stamp  int64
+	Paths  []string
+	Errors []string
+	Events [][2]int64 // unix nanoseconds, delta bytes
+	Count  uint
+	Size   uint64
+}
+
+func (r *VerifReport) toReport() *VDRKillReport {
+	if r == nil {
+		return nil
+	}
+	rep := &VDRKillReport{Paths: r.Paths, Errors: r.Errors, Count: r.Count, Size: r.Size}
+	if r.Stamp != 0 {
+		rep.Timestamp = WallClockTime(time.Unix(0, r.Stamp))
+	}
+	for _, e := range r.Events {
+		rep.Events = append(rep.Events, &VdrEvent{
+			Timestamp: time.Unix(0, e[0]), DeltaBytes: e[1]})
+	}
+	return rep
+}
+
+func fromReport(rep *VDRKillReport) *VerifReport {
+	r := &VerifReport{Paths: rep.Paths, Errors: rep.Errors, Count: rep.Count, Size: rep.Size}
+	if !rep.Timestamp.IsZero() {
+		r.Stamp = time.Time(rep.Timestamp).UnixNano()
+	}
+	for _, e := range rep.Events {
+		r.Events = append(r.Events, [2]int64{e.Timestamp.UnixNano(), e.DeltaBytes})
+	}
+	return r
+}
+
+// VerifMergeVDRKillReports exposes mergeVDRKillReports (nil entries allowed).
+func VerifMergeVDRKillReports(reports []*VerifReport) *VerifReport {
+	in := make([]*VDRKillReport, len(reports))
+	for i, r := range reports {
+		in[i] = r.toReport()
+	}
+	return fromReport(mergeVDRKillReports(in))
+}
+
+// VerifMergeEvents exposes VDRKillReport.mergeEvents.
+func VerifMergeEvents(r *VerifReport) *VerifReport {
+	rep := r.toReport()
+	rep.mergeEvents()
+	return fromReport(rep)
+}
